@@ -345,3 +345,170 @@ Proof.
     apply rmap_forall2 in Ec. clear - Ec. induction Ec as [|cs ncs l l' Hc _ IHc]; constructor; [|exact IHc].
     apply rmap_forall2 in Hc. clear - Hc. induction Hc as [|tc nc l l' H _ IHc]; constructor; [eauto | exact IHc].
 Qed.
+
+(* ---- where the temporary tags go --------------------------------------------------------------------------------------- *)
+(* all tags handed out so far are -1 .. -(next_temp - 1); [tp] lists, per temporary identifier, the tags of its occurrences *)
+Definition temp_range (k : N) (t : Z) : Prop := (t < 0)%Z /\ (- t < Z.of_N k)%Z.
+
+Record tp_inv (k0 k : N) (comps : list comp) (ncs : list ncomp) (tp : temp_pats) : Prop := {
+  ti_fwd : forall i p t, nth_error comps i = Some (CPat p) -> is_temp_pat p = true -> nth_error ncs i = Some (NPat t) ->
+           exists l, al_get ident_eqb tp p = Some l /\ In t l;
+  ti_bwd : forall p l t, al_get ident_eqb tp p = Some l -> In t l ->
+           exists i, nth_error comps i = Some (CPat p) /\ nth_error ncs i = Some (NPat t) /\ is_temp_pat p = true;
+  ti_fresh : forall i t, nth_error ncs i = Some (NPat t) -> (t < 0)%Z -> (Z.of_N k0 <= - t)%Z /\ (- t < Z.of_N k)%Z;
+  ti_nodup : forall i j t, nth_error ncs i = Some (NPat t) -> nth_error ncs j = Some (NPat t) -> (t < 0)%Z -> i = j
+}.
+
+Lemma nth_error_snoc {A} (l : list A) x i y : nth_error (l ++ [x]) i = Some y ->
+  (nth_error l i = Some y /\ (i < length l)%nat) \/ (i = length l /\ y = x).
+Proof.
+  intros H. destruct (Nat.lt_ge_cases i (length l)) as [Hlt|Hge].
+  - left. rewrite nth_error_app1 in H by exact Hlt. auto.
+  - right. rewrite nth_error_app2 in H by exact Hge. destruct (i - length l)%nat as [|n] eqn:E; cbn in H; [inversion H; split; [lia | reflexivity]|].
+    destruct n; discriminate.
+Qed.
+
+Lemma number_name_tags : forall comps done ndone st tp st' tp' ncs k0,
+  map_acc number_comp (st, tp) comps = ((st', tp'), ncs) -> length done = length ndone ->
+  tp_inv k0 (ns_next_temp st) done ndone tp -> (1 <= k0) -> (k0 <= ns_next_temp st) ->
+  tp_inv k0 (ns_next_temp st') (done ++ comps) (ndone ++ ncs) tp' /\ ns_next_temp st <= ns_next_temp st'.
+Proof.
+  induction comps as [|c comps IH]; intros done ndone st tp st' tp' ncs k0 H Hlen HI Hk1 Hk; cbn [map_acc] in H.
+  - inversion H; subst. rewrite !app_nil_r. split; [exact HI | lia].
+  - destruct (number_comp (st, tp) c) as [[st1 tp1] nc] eqn:Ec.
+    destruct (map_acc number_comp (st1, tp1) comps) as [[st2 tp2] ncs'] eqn:Em. inversion H; subst. clear H.
+    assert (Hstep : tp_inv k0 (ns_next_temp st1) (done ++ [c]) (ndone ++ [nc]) tp1 /\ ns_next_temp st <= ns_next_temp st1).
+    { unfold number_comp in Ec. destruct c as [v|pid|r].
+      - inversion Ec; subst. split; [|lia]. destruct HI as [F B Fr Nd]. constructor.
+        + intros i p t Hc Ht Hn. apply nth_error_snoc in Hc. destruct Hc as [[Hc Hi]|[_ Hc]]; [|discriminate].
+          rewrite nth_error_app1 in Hn by lia. eauto.
+        + intros p l t Hl Ht. destruct (B p l t Hl Ht) as (i & H1 & H2 & H3). exists i.
+          assert (i < length done)%nat by (apply nth_error_Some; congruence).
+          rewrite !nth_error_app1 by lia. auto.
+        + intros i t Hn Ht. apply nth_error_snoc in Hn. destruct Hn as [[Hn _]|[_ Hn]]; [eauto | discriminate].
+        + intros i j t Hi Hj Ht. apply nth_error_snoc in Hi, Hj. destruct Hi as [[Hi _]|[_ Hi]], Hj as [[Hj _]|[_ Hj]]; try discriminate. eauto.
+      - destruct (is_temp_pat pid) eqn:Etp.
+        + inversion Ec; subst. clear Ec. cbn [ns_next_temp]. split; [|lia]. destruct HI as [F B Fr Nd].
+          set (t0 := (- Z.of_N (ns_next_temp st))%Z) in *.
+          assert (Hnew : forall i, nth_error ndone i <> Some (NPat t0)).
+          { intros i Hi. assert (Hneg : (t0 < 0)%Z) by (unfold t0; lia). destruct (Fr i t0 Hi Hneg) as [_ H2]. unfold t0 in H2. lia. }
+          constructor.
+          * intros i p t Hc Ht Hn. apply nth_error_snoc in Hc. destruct Hc as [[Hc Hi]|[Hi Hc]].
+            -- rewrite nth_error_app1 in Hn by lia. destruct (F i p t Hc Ht Hn) as (l & Hl & Hin).
+               destruct (list_eq_dec N.eq_dec p pid) as [->|Hne].
+               ++ rewrite Hl. exists (l ++ [t0]). split; [apply al_get_set_same; unfold al_mem; rewrite Hl; reflexivity | apply in_or_app; auto].
+               ++ exists l. split; [|exact Hin]. destruct (al_get ident_eqb tp pid) as [l0|] eqn:E0.
+                  ** rewrite al_get_set_other by congruence. exact Hl.
+                  ** apply al_get_app_some. exact Hl.
+            -- inversion Hc; subst p. rewrite Hi, Hlen, nth_error_app2, Nat.sub_diag in Hn by lia. cbn in Hn. inversion Hn; subst t.
+               destruct (al_get ident_eqb tp pid) as [l0|] eqn:E0.
+               ++ exists (l0 ++ [t0]). split; [apply al_get_set_same; unfold al_mem; rewrite E0; reflexivity | apply in_or_app; right; left; reflexivity].
+               ++ exists [t0]. split; [|left; reflexivity]. rewrite (al_get_app_none _ _ _ _ E0), (proj2 (ident_eqb_eq pid pid) eq_refl), E0. reflexivity.
+          * intros p l t Hl Ht.
+            assert (Hcase : (exists l', al_get ident_eqb tp p = Some l' /\ In t l') \/ (p = pid /\ t = t0)).
+            { destruct (al_get ident_eqb tp pid) as [l0|] eqn:E0.
+              - destruct (list_eq_dec N.eq_dec p pid) as [->|Hne].
+                + rewrite al_get_set_same in Hl by (unfold al_mem; rewrite E0; reflexivity). inversion Hl; subst l.
+                  apply in_app_or in Ht. destruct Ht as [Ht|[Ht|[]]]; [left; eauto | right; auto].
+                + rewrite al_get_set_other in Hl by congruence. left; eauto.
+              - rewrite (al_get_app_none _ _ _ _ E0) in Hl. destruct (ident_eqb p pid) eqn:E.
+                + apply ident_eqb_eq in E. subst p. rewrite E0 in Hl. inversion Hl; subst l. destruct Ht as [<-|[]]. right; auto.
+                + left; eauto. }
+            destruct Hcase as [(l' & Hl' & Ht')|[-> ->]].
+            -- destruct (B p l' t Hl' Ht') as (i & H1 & H2 & H3). exists i.
+               assert (i < length done)%nat by (apply nth_error_Some; congruence).
+               rewrite !nth_error_app1 by lia. auto.
+            -- exists (length done). split; [rewrite nth_error_app2, Nat.sub_diag by lia; reflexivity|]. split; [|exact Etp].
+               rewrite Hlen, nth_error_app2, Nat.sub_diag by lia. reflexivity.
+          * intros i t Hn Ht. apply nth_error_snoc in Hn. destruct Hn as [[Hn _]|[_ Hn]].
+            -- destruct (Fr i t Hn Ht). lia.
+            -- inversion Hn; subst t. unfold t0. lia.
+          * intros i j t Hi Hj Ht. apply nth_error_snoc in Hi, Hj. destruct Hi as [[Hi Li]|[Li Hi]], Hj as [[Hj Lj]|[Lj Hj]].
+            -- eauto.
+            -- inversion Hj; subst t. exfalso. eapply Hnew; eauto.
+            -- inversion Hi; subst t. exfalso. eapply Hnew; eauto.
+            -- lia.
+        + assert (E1 : st1 = st \/ ns_next_temp st1 = ns_next_temp st).
+          { destruct (al_get ident_eqb (ns_named st) pid); inversion Ec; subst; cbn; auto. }
+          assert (Etp1 : tp1 = tp) by (destruct (al_get ident_eqb (ns_named st) pid); inversion Ec; reflexivity).
+          assert (Enc : exists n, nc = NPat (Z.of_N n)) by (destruct (al_get ident_eqb (ns_named st) pid); inversion Ec; eauto).
+          assert (Ek : ns_next_temp st1 = ns_next_temp st) by (destruct E1 as [->|E1]; auto).
+          subst tp1. destruct Enc as (n & ->). rewrite Ek. split; [|lia]. destruct HI as [F B Fr Nd]. constructor.
+          * intros i p t Hc Ht Hn. apply nth_error_snoc in Hc. destruct Hc as [[Hc Hi]|[_ Hc]]; [|inversion Hc; subst; congruence].
+            rewrite nth_error_app1 in Hn by lia. eauto.
+          * intros p l t Hl Ht. destruct (B p l t Hl Ht) as (i & H1 & H2 & H3). exists i.
+            assert (i < length done)%nat by (apply nth_error_Some; congruence).
+            rewrite !nth_error_app1 by lia. auto.
+          * intros i t Hn Ht. apply nth_error_snoc in Hn. destruct Hn as [[Hn _]|[_ Hn]]; [eauto | inversion Hn; lia].
+          * intros i j t Hi Hj Ht. apply nth_error_snoc in Hi, Hj. destruct Hi as [[Hi _]|[_ Hi]], Hj as [[Hj _]|[_ Hj]]; try (inversion Hi; lia); try (inversion Hj; lia). eauto.
+      - inversion Ec; subst. split; [|lia]. destruct HI as [F B Fr Nd]. constructor.
+        + intros i p t Hc Ht Hn. apply nth_error_snoc in Hc. destruct Hc as [[Hc Hi]|[_ Hc]]; [|discriminate].
+          rewrite nth_error_app1 in Hn by lia. eauto.
+        + intros p l t Hl Ht. destruct (B p l t Hl Ht) as (i & H1 & H2 & H3). exists i.
+          assert (i < length done)%nat by (apply nth_error_Some; congruence).
+          rewrite !nth_error_app1 by lia. auto.
+        + intros i t Hn Ht. apply nth_error_snoc in Hn. destruct Hn as [[Hn _]|[_ Hn]]; [eauto | discriminate].
+        + intros i j t Hi Hj Ht. apply nth_error_snoc in Hi, Hj. destruct Hi as [[Hi _]|[_ Hi]], Hj as [[Hj _]|[_ Hj]]; try discriminate. eauto. }
+    destruct Hstep as [HI1 Hk1'].
+    destruct (IH (done ++ [c]) (ndone ++ [nc]) _ _ _ _ _ k0 Em) as [HI2 Hk2]; [rewrite !app_length; cbn; lia | exact HI1 | exact Hk1 | lia |].
+    rewrite <- !app_assoc in HI2. cbn [app] in HI2. split; [exact HI2 | lia].
+Qed.
+
+Lemma tp_inv_nil k : tp_inv k k [] [] [].
+Proof.
+  constructor.
+  - intros i p t H. destruct i; discriminate.
+  - intros p l t H. discriminate.
+  - intros i t H. destruct i; discriminate.
+  - intros i j t H. destruct i; discriminate.
+Qed.
+
+Lemma tp_inv_weaken k0 k k' comps ncs tp : tp_inv k0 k comps ncs tp -> k <= k' -> tp_inv k0 k' comps ncs tp.
+Proof.
+  intros [F B Fr Nd] Hle. constructor; auto. intros i t Hn Ht. destruct (Fr i t Hn Ht). lia.
+Qed.
+
+Lemma number_rules_tags : forall rules st st' names,
+  map_acc number_rule_name st rules = (st', names) -> 1 <= ns_next_temp st ->
+  Forall2 (fun r x => exists k0 k1, 1 <= k0 /\ k1 <= ns_next_temp st' /\ tp_inv k0 k1 (r_name r) (fst x) (snd x)) rules names /\
+  ns_next_temp st <= ns_next_temp st'.
+Proof.
+  induction rules as [|r rules IH]; intros st st' names H Hk; cbn [map_acc] in H.
+  - inversion H; subst. split; [constructor | lia].
+  - unfold number_rule_name at 1 in H.
+    destruct (map_acc number_comp (st, []) (r_name r)) as [[st1 tp1] nm] eqn:En.
+    destruct (map_acc number_rule_name st1 rules) as [st2 names'] eqn:Em. inversion H; subst. clear H.
+    destruct (number_name_tags (r_name r) [] [] st [] st1 tp1 nm (ns_next_temp st) En eq_refl (tp_inv_nil _) Hk (N.le_refl _)) as [HI Hle].
+    cbn [app] in HI. destruct (IH _ _ _ Em) as [Hall Hle2]; [lia|].
+    split; [|lia]. constructor; [|exact Hall].
+    exists (ns_next_temp st), (ns_next_temp st1). cbn [fst snd]. split; [exact Hk|]. split; [exact Hle2 | exact HI].
+Qed.
+
+(* everything that is known of one numbered rule *)
+Definition nrule_full (named : list (ident * N)) (kfinal : N) (r : rule) (nr : nrule) : Prop :=
+  nr_id nr = r_id r /\ nr_sign nr = r_sign r /\ Forall2 comp_shape (r_name r) (nr_name nr) /\
+  Forall (comp_tag_ok named) (nr_name nr) /\
+  exists tp k0 k1, 1 <= k0 /\ k1 <= kfinal /\ tp_inv k0 k1 (r_name r) (nr_name nr) tp /\
+    Forall2 (Forall2 (fun tc nc => resolve_cons named tp tc = Ok nc)) (r_cons r) (nr_cons nr).
+
+Theorem gen_pattern_numbers_full rules nrules st :
+  gen_pattern_numbers rules = Ok (nrules, st) -> Forall2 (nrule_full (ns_named st) (ns_next_temp st)) rules nrules.
+Proof.
+  unfold gen_pattern_numbers.
+  destruct (map_acc number_rule_name {| ns_named := []; ns_next_named := 1; ns_next_temp := 1 |} rules) as [st1 names] eqn:Em.
+  destruct (number_rules_spec _ _ _ _ Em num_inv0) as (_ & _ & _ & Hall).
+  destruct (number_rules_tags _ _ _ _ Em) as [Htags _]; [cbn; lia|].
+  destruct (rmap _ (combine rules names)) as [nrs|e] eqn:Er; cbn [bind]; [|discriminate].
+  intros H; inversion H; subst nrs st1. clear H. apply rmap_forall2 in Er.
+  clear Em. revert nrules Er Htags. induction Hall as [|r x rs xs H0 _ IH]; intros nrules Er Htags; cbn [combine] in Er.
+  - inversion Er. constructor.
+  - inversion Er as [|? nr ? nrs' Hf Hrest]; subst. inversion Htags as [|? ? ? ? (k0 & k1 & Hk0 & Hk1 & Htp) Htags']; subst.
+    constructor; [|apply IH; assumption].
+    destruct x as [nm tp]. cbn beta iota in Hf.
+    destruct (rmap (rmap (resolve_cons (ns_named st) tp)) (r_cons r)) as [rc|] eqn:Ec; [|discriminate].
+    cbn [bind] in Hf. inversion Hf; subst nr. clear Hf. destruct H0 as (Hs & Hk & _). cbn [fst snd] in *.
+    unfold nrule_full. cbn. split; [reflexivity|]. split; [reflexivity|]. split; [exact Hs|]. split; [exact Hk|].
+    exists tp, k0, k1. split; [exact Hk0|]. split; [exact Hk1|]. split; [exact Htp|].
+    apply rmap_forall2 in Ec. clear - Ec. induction Ec as [|cs ncs l l' Hc _ IHc]; constructor; [|exact IHc].
+    apply rmap_forall2 in Hc. exact Hc.
+Qed.
